@@ -16,7 +16,7 @@ sequences over <= 4 (quick) / <= 5 (thorough) keys for keyed lists and leaf-list
 import json, os
 from vlib import treegen as tg, paths
 
-LEAN_TARGETS = ["LyModel.Props.C06", "LyModel.Props.C06UO", "LyModel.Props.C06UOList"]
+LEAN_TARGETS = ["LyModel.Props.C06", "LyModel.Props.C06UO", "LyModel.Props.C06UOList", "LyModel.Props.C06UONb"]
 AUDIT = "Audit/C06.lean"
 HARNESS = "api_diff"
 COMP = "diff"
@@ -457,8 +457,8 @@ def theorem_cases(cx, head, cases, tag):
             continue
         A, B = tg.untok(c.s, c.a), tg.untok(c.s, c.b)
         tops = A + B
-        # cheap necessary condition (the driver decides): all top-level nodes are instances of one leaf-list
-        if not tops or tops[0].sn.kind not in ("leaflist", "list") or any(n.sn is not tops[0].sn for n in tops):
+        # cheap necessary condition (the driver decides): a user-ordered (leaf-)list has instances at the top level
+        if not any(n.sn.kind in ("leaflist", "list") and n.sn.is_userord() for n in tops):
             cx.dist["thm:apply_diff_userord_flat:hypotheses-fail"] += 1
             continue
         i = "h%s%d" % (tag, k)
@@ -474,10 +474,11 @@ def theorem_cases(cx, head, cases, tag):
         if r[0] != "ok":
             cx.disagree(COMP, l, ["ok", "?"], r)
             continue
-        if r[1] not in ("1", "2"):
+        if r[1] not in ("1", "2", "3"):
             cx.dist["thm:apply_diff_userord_flat:hypotheses-fail"] += 1
             continue
-        thm = "ll" if r[1] == "1" else "kl"         # flatLL (leaf-list) / flatKL (single-key list, key-only instances)
+        # flatLL (leaf-list alone) / flatKL (single-key list, key-only instances) / nbLL (leaf-list between inert neighbours)
+        thm = {"1": "ll", "2": "kl", "3": "ll_neighbours"}[r[1]]
         cx.dist["thm:apply_diff_userord_flat_%s:hypotheses-hold" % thm] += 1
         c.feat[1] = sorted(set(c.feat.get(1, [])) | {"thm-userord-flat-" + thm})
         core = r[3:]
